@@ -157,7 +157,7 @@ impl Prop for C11 {
     }
     fn runs(&self, tier: Tier) -> u64 {
         match tier {
-            Tier::Quick => 6000,
+            Tier::Quick => 10000,
             Tier::Thorough => 100000,
         }
     }
